@@ -82,13 +82,19 @@ fn adjust(s: &mut TypeSpec, d: &mut Dna) -> bool {
                 v.disc = None;
             }
         }
-        // the upper half of u128: every discriminant is written 2^127 higher than the model's value; the first variant
-        // is explicit so that the shift is uniform and the order unchanged
+        // the upper half of u128: the discriminants of a prefix of the variants (often all of them) are written 2^127
+        // higher than the model's value; the first variant and the first variant after the prefix are explicit so that no
+        // implicit discriminant continues across the boundary
         if ok && r == "u128" && !with_c && d.chance(50) && ds.iter().all(|x| *x >= 0 && *x < (1i128 << 126)) {
             if s.variants[0].disc.is_none() {
                 s.variants[0].disc = Some(ds[0]);
             }
-            s.disc_shift = true;
+            let n = s.variants.len();
+            let k = if d.chance(50) { n } else { 1 + d.pick(n - 1) };
+            if k < n && s.variants[k].disc.is_none() {
+                s.variants[k].disc = Some(ds[k]);
+            }
+            s.disc_shift = k;
         }
     }
     true
@@ -102,15 +108,23 @@ pub fn render(s: &TypeSpec) -> Option<Rendered> {
     let has_ord = s.has(Tr::Ord);
     let has_pord = s.has(Tr::PartialOrd);
     let discs = s.discriminants();
+    // a `#[repr(u128)]` enum is modelled in u128 (its discriminants may lie above i128::MAX), everything else in i128
+    let wide = crate::spec::repr_int(s.repr.as_deref()) == Some("u128");
+    let discs_u = s.discriminants_u128();
+    let dty = if wide { "u128" } else { "i128" };
     let mut o = render_field_oracle(s, has_ord);
-    o.push_str(&format!("pub fn disc(x: &{ty}) -> i128 {{\n    match x {{\n"));
+    o.push_str(&format!("pub fn disc(x: &{ty}) -> {dty} {{\n    match x {{\n"));
     for (vi, v) in s.variants.iter().enumerate() {
         let pat = match v.shape {
             Shape::Unit => format!("{}::{}", s.name, v.name),
             Shape::Named => format!("{}::{} {{ .. }}", s.name, v.name),
             Shape::Tuple => format!("{}::{}(..)", s.name, v.name),
         };
-        o.push_str(&format!("        {pat} => {}i128,\n", discs[vi]));
+        if wide {
+            o.push_str(&format!("        {pat} => {}u128,\n", discs_u[vi]));
+        } else {
+            o.push_str(&format!("        {pat} => {}i128,\n", discs[vi]));
+        }
     }
     o.push_str("    }\n}\n");
     o.push_str(&format!("#[repr(C)] pub struct Cell {{ pub head: u8, pub v: {ty}, pub tail: [u8; 16] }}\n"));
@@ -151,11 +165,7 @@ pub fn render(s: &TypeSpec) -> Option<Rendered> {
     // self-validation of the oracle's discriminant arithmetic where the language lets us observe it
     let all_unit = s.variants.iter().all(|v| v.shape == Shape::Unit);
     if all_unit {
-        if s.disc_shift {
-            o.push_str("    for (i, v) in vals().into_iter().enumerate() {\n        let d = disc(&v);\n        let real = (v as u128).wrapping_sub(1u128 << 127) as i128;\n");
-        } else {
-            o.push_str("    for (i, v) in vals().into_iter().enumerate() {\n        let d = disc(&v);\n        let real = v as i128;\n");
-        }
+        o.push_str(&format!("    for (i, v) in vals().into_iter().enumerate() {{\n        let d = disc(&v);\n        let real = v as {dty};\n"));
         o.push_str("        if d != real { println!(\"F {} HARNESS oracle discriminant {} != `as` cast {} for value {}\", o.ty, d, real, i); o.fails += 1; }\n    }\n");
     }
     o.push_str("}\n");
@@ -165,7 +175,7 @@ pub fn render(s: &TypeSpec) -> Option<Rendered> {
         t.contains("bool") || t.contains("char") || t.contains('&') || t.contains("NonZero") || t.contains("Inner") || t.contains("Option")
     });
     let zst = s.all_fields().any(|f| f.ty.inst == "()" || f.ty.inst.contains("Phantom") || f.ty.inst == "[u8; 0]");
-    let nonmono = discs.windows(2).any(|w| w[0] > w[1]);
+    let nonmono = if wide { discs_u.windows(2).any(|w| w[0] > w[1]) } else { discs.windows(2).any(|w| w[0] > w[1]) };
     let nv = s.variants.len();
     let mut classes = vec![];
     if !prim {
@@ -186,8 +196,11 @@ pub fn render(s: &TypeSpec) -> Option<Rendered> {
     if s.variants.iter().any(|v| v.disc.is_some()) {
         classes.push("explicit_discriminants".to_string());
     }
-    if s.disc_shift {
+    if s.disc_shift > 0 {
         classes.push("discriminants_above_i128_max".to_string());
+        if s.disc_shift < s.variants.len() {
+            classes.push("discriminants_on_both_sides_of_i128_max".to_string());
+        }
     }
     if nv == 1 {
         classes.push("single_variant".to_string());
